@@ -211,14 +211,12 @@ func init() {
 				}
 			}
 			// (first, so that these long scenarios start at once)
-			// contended: one operation against three single-operation writer threads (a retrying
+			// contended: one operation against a thread issuing three writes in a row (a retrying
 			// swap! can lose up to three races in a row)
 			for i := 0; i < n; i++ {
 				for _, w := range []int{1, 2} { // reset!, swap!-inc
-					if tier != "thorough" && !(w == 1 && i == 5) {
-						continue // quick: only the self-reading swap! against three reset!s
-					}
-					add([][]int{{i}, {w}, {w}, {w}})
+
+					add([][]int{{i}, {w, w, w}})
 				}
 			}
 			for i := 0; i < n; i++ {
@@ -286,7 +284,11 @@ func init() {
 								h := &histOp{thread: ti, op: o, c: c}
 								st.hist = append(st.hist, h)
 								if s := vcore.Active(); s != nil {
-									s.Point("op-start")
+									if k == 0 {
+										s.Point("op-start")
+									} else {
+										s.Point("op-next") // boundary between two operations of one thread: a free yield
+									}
 								}
 								st.clock++
 								h.inv = st.clock
@@ -366,7 +368,7 @@ func init() {
 		}
 		fam := &vf.Family{
 			Name:    "atom-scenarios",
-			Bounds:  fmt.Sprintf("all multisets of 2 threads x 1 op, 3 threads x 1 op, one op against three identical writers (bound 3), (2 ops || 1 op) and, thorough, (2 ops || 2 ops) over %d atom operations on atoms a, b; per scenario all interleavings at lock operations and hook points of lib/concurrent up to preemption bound 2 (quick) / 3 (thorough), capped at 20000 (quick) / 200000 (thorough) executions per scenario", len(atomOps)),
+			Bounds:  fmt.Sprintf("all multisets of 2 threads x 1 op, 3 threads x 1 op, one op against a thread issuing three writes (bound 3; switching at the boundary between two operations of a thread is a free yield, not a preemption), (2 ops || 1 op) and, thorough, (2 ops || 2 ops) over %d atom operations on atoms a, b; per scenario all interleavings at lock operations and hook points of lib/concurrent up to preemption bound 2 (quick) / 3 (thorough), capped at 20000 (quick) / 200000 (thorough) executions per scenario", len(atomOps)),
 			Setup:   setup,
 			Timeout: 120 * time.Second,
 			N:       func(t string) int64 { tier = t; return int64(len(plansOf())) },
@@ -377,7 +379,7 @@ func init() {
 				if tier == "thorough" {
 					bound, maxEx = 3, 200000
 				}
-				if len(plan) == 4 {
+				if len(plan) == 2 && len(plan[1]) == 3 {
 					bound, maxEx = 3, 400000 // three lost races in a row need three preemptions
 				}
 				res := explore.Explore(mkScenario(plan), bound, maxEx, time.Now().Add(60*time.Second))
